@@ -94,6 +94,12 @@ func c20Alphabet() []*c20Shape {
 		{name: "call-3-lines", lines: []string{"k = sorted([3, 1, 2],", "# comment-only line inside brackets", "reverse=vh.v(21, True))"}},
 		{name: "list-blank-inside", core: true, lines: []string{"l = [vh.v(22, 5),", "", "     6]"}},
 		{name: "backslash", core: true, lines: []string{"a = vh.v(23, 5) + \\", "    1"}},
+		// a backslash after text that would be a complete statement on its own
+		{name: "backslash-complete-prefix", core: true, lines: []string{"t = vh.v(52, 10) \\", "    + 20"}},
+		{name: "backslash-expr", lines: []string{"vh.v(53, 1) \\", "  + 1"}, expr: "vh.v(53, 1) + 1"},
+		{name: "backslash-3-lines", lines: []string{"u = vh.v(54, 1) \\", " + 2 \\", " + 3"}},
+		{name: "backslash-strings", lines: []string{"n = 'a' \\", "  'b' + vh.v(56, 'c')"}},
+		{name: "if-backslash-body", lines: []string{"if vh.v(55, True):", "    w = 1 \\", "        + 2", "    w += 1"}},
 		{name: "triple-assign", core: true, lines: []string{"s = \"\"\"ab", "  cd:(", "\"\"\" + vh.v(24, '!')"}},
 		{name: "triple-blank-inside", core: true, lines: []string{"s = '''x", "", "# y''' + vh.v(25, '?')"}},
 		{name: "triple-expr", lines: []string{"vh.v(26, '''p", "q''')"}, expr: "vh.v(26, '''p\nq''')"},
@@ -992,9 +998,9 @@ func init() {
 	core.Register(&core.Check{
 		ID:    "C20",
 		Level: "model_checking",
-		Rule: "statement alphabet S of 60 shapes (one-line simple statements incl. bare expressions with None/non-None values and bare number/string literals (one line, parenthesised, triple-quoted over two lines, inside a for block), `_` uses, `;` lists, import, del; run-time and syntax errors incl. unexpected indent and an unterminated string; comment-only, empty and whitespace-only lines; " +
+		Rule: "statement alphabet S of 65 shapes (one-line simple statements incl. bare expressions with None/non-None values and bare number/string literals (one line, parenthesised, triple-quoted over two lines, inside a for block), `_` uses, `;` lists, import, del; run-time and syntax errors incl. unexpected indent and an unterminated string; comment-only, empty and whitespace-only lines; " +
 			"bracket/backslash/triple-quoted continuations over 2-3 physical lines incl. comment-only and blank lines inside brackets and strings; if/elif/else, for, while, def, decorator, class, 2-level nesting, tab indentation, try/finally, try/except, " +
-			"comment and whitespace-only lines and multi-line brackets/strings inside blocks, one-line compound statements, `else`/`except` clauses after a one-line `if`/`try`, a syntax error and an inconsistent dedent inside a block, a header without body, a try without handler, a decorator without definition); 33 of the shapes form the core sub-alphabet. " +
+			"comment and whitespace-only lines and multi-line brackets/strings inside blocks, one-line compound statements, `else`/`except` clauses after a one-line `if`/`try`, a syntax error and an inconsistent dedent inside a block, a header without body, a try without handler, a decorator without definition); 34 of the shapes form the core sub-alphabet. " +
 			"quick: ALL programs of 1..2 statements over S and ALL programs of 3 statements over the core; thorough: ALL programs of 1..3 statements over S and ALL programs of 4 statements over the core. " +
 			"Each program is fed to a real repl.REPL one physical line at a time with a blank line after every compound or continued statement; after every line the prompt, the UI output, stderr, the vh log and REPL.continuation/previous are recorded. " +
 			"Oracles: the same statements each compiled whole in single mode and run once in a fresh namespace (effects, echo, globals incl. `_` after every statement), the whole program run as a file in exec mode (error-free prefix, `_` excluded), " +
